@@ -2,10 +2,13 @@ package main
 
 import (
 	"bufio"
+	"bytes"
 	"encoding/json"
 	"flag"
 	"fmt"
+	"io"
 	"net"
+	"net/http"
 	"os"
 	"os/exec"
 	"path/filepath"
@@ -34,6 +37,7 @@ type c14Cycle struct {
 	Mix       bool   `json:"mix"`    // in-flight requests are a mix of valid and invalid
 	LongHoldS int    `json:"long_hold_s"`
 	Resignal  int    `json:"resignal"` // CLI only: extra SIGINTs delivered while the drain is in progress
+	Scrape    bool   `json:"scrape"`   // CLI only: a /metrics request is in flight (head partly sent) when the stop arrives
 }
 
 func c14Plan(o *cli.Opts, cliMode bool) []c14Cycle {
@@ -45,6 +49,7 @@ func c14Plan(o *cli.Opts, cliMode bool) []c14Cycle {
 		add(c14Cycle{Name: "cli/inflight-1-afterDecode", Timing: "inflight", K: 1, Delays: "prove.afterDecode=700:200"})
 		add(c14Cycle{Name: "cli/inflight-3-afterProve-mixed", Timing: "inflight", K: 3, Mix: true, Delays: "prove.afterProve=700:300,job.stopRequested=40"})
 		add(c14Cycle{Name: "cli/inflight-2-before-body-read", Timing: "inflight", K: 2, Delays: "prove.enter=900:300"})
+		add(c14Cycle{Name: "cli/inflight-1-scrape-in-flight", Timing: "inflight", K: 1, Delays: "prove.afterDecode=1200:200", Scrape: true})
 		add(c14Cycle{Name: "cli/inflight-2-repeated-sigint", Timing: "inflight", K: 2, Delays: "prove.afterDecode=1500:300", Resignal: 2})
 		add(c14Cycle{Name: "cli/long-hold", Timing: "inflight", K: 2, Delays: fmt.Sprintf("prove.afterDecode=%d", o.Pick(8000, 35000)), LongHoldS: o.Pick(8, 35)})
 		if o.Thorough() {
@@ -465,8 +470,39 @@ func c14CLI(o *cli.Opts, run *evid.Run, ks *keyset) {
 				run.Add("inflight_confirmed", 1)
 			}
 		}
+		// a scrape whose request head is only partly on the wire when the stop arrives; it is completed right after
+		var scrapeConn net.Conn
+		var scrapeT0 time.Time
+		if cy.Scrape {
+			if c, err := net.DialTimeout("tcp", mAddr, 5*time.Second); err == nil {
+				scrapeConn, scrapeT0 = c, time.Now()
+				fmt.Fprintf(c, "GET /metrics HTTP/1.1\r\nHost: %s\r\nConnection: close\r\n", mAddr)
+			}
+		}
 		stopAt := time.Now()
 		srv.Signal(syscall.SIGINT)
+		if scrapeConn != nil {
+			time.Sleep(300 * time.Millisecond)
+			scrapeConn.SetDeadline(time.Now().Add(60 * time.Second))
+			_, werr := scrapeConn.Write([]byte("\r\n"))
+			resp, rerr := http.ReadResponse(bufio.NewReader(scrapeConn), nil)
+			var body []byte
+			if rerr == nil {
+				body, _ = io.ReadAll(resp.Body)
+				resp.Body.Close()
+			}
+			elapsed := time.Since(scrapeT0)
+			scrapeConn.Close()
+			switch {
+			case rerr == nil && resp.StatusCode == 200 && bytes.Contains(body, []byte("go_goroutines")):
+				run.Add("scrapes_completed_across_stop", 1)
+			case elapsed > 4*time.Second:
+				// net/http may legitimately drop a connection whose request head is still incomplete 5 s after it was opened
+				run.Inconclusive(key + ": the in-flight scrape took longer than 4 s to set up and complete on this machine")
+			default:
+				run.Violate(key+"/scrape", fmt.Sprintf("a /metrics request that was in flight (request head partly sent) when SIGINT arrived did not receive its full response: write err=%v, read err=%v", werr, rerr), nil)
+			}
+		}
 		for i := 0; i < cy.Resignal; i++ { // an impatient operator: the stop is requested again while the drain is in progress
 			time.Sleep(150 * time.Millisecond)
 			if srv.Signal(syscall.SIGINT) == nil {
